@@ -276,6 +276,10 @@ SPECIAL = [
     'x = f"{a!r:>{w}} é {b=}" "é" f"{c}"\n', 'lambda a, /, b=1, *c, d=2, **e: (a, b)\n', 'x = a[b:c:d, e, ..., *f]\n',
     'from m import (a as b, c as d, e)\nimport p.q as r, s\nglobal g, h\n', 'async def f():\n    async with a as b: await c\n    async for i in j: yield i\n',
     'type A[T: int, *U, **P] = dict[T, U]\n', 'del a, b[c], d.e\nassert a, "é"\nraise E from c\n',
+    # self-documenting f-string fields whose expression has gaps owned by operator nodes (two-word operators, unary, ternary)
+    "x = f'{a is not b = }'\n", "x = f'{a not in b=}'\n", "x = f'{é is not ü = :>5} {c not in d = !r}'\n", "x = f'{a if b else c = }'\n",
+    "x = f'{not a = }' f'{- a=}'\n", "x = f'{a and b or c = }'\n", "x = f'{a < b <= c = }'\n", "x = f'{f(a, k = 1) = }'\n", "x = f'{a [ b : c ] = }'\n",
+    'class Shape(Base, metaclass=abc.ABCMeta,\n            *mixins): pass\n', 'class C(a, k=1,\n  *b, j=2,\n *c): pass\n', 'r = f(a, key=1,\n  *b, last=2,\n *c)\n',
 ]
 
 
